@@ -21,6 +21,19 @@ impl FieldValue {
         matches!(self, FieldValue::Null)
     }
 
+    /// Whether the two values have the same type from Python's point of view:
+    /// `Int64` and `Uint64` are both Python `int` values.
+    #[inline]
+    fn has_same_python_type(&self, other: &FieldValue) -> bool {
+        match (self, other) {
+            (
+                FieldValue::Int64(_) | FieldValue::Uint64(_),
+                FieldValue::Int64(_) | FieldValue::Uint64(_),
+            ) => true,
+            _ => std::mem::discriminant(self) == std::mem::discriminant(other),
+        }
+    }
+
     #[inline]
     pub(crate) fn python_type_name(&self) -> Cow<'static, str> {
         match self {
@@ -130,19 +143,15 @@ impl<'a, 'py> pyo3::FromPyObject<'a, 'py> for FieldValue {
                 }
             };
             if let Some(first) = first_non_null {
-                let expected = std::mem::discriminant(first);
                 for other in iter {
-                    if !other.is_null() {
-                        let next_discriminant = std::mem::discriminant(other);
-                        if expected != next_discriminant {
-                            let first_type = first.python_type_name();
-                            let other_type = other.python_type_name();
-                            return Err(PyValueError::new_err(format!(
-                                "Found elements of different (non-null) types in the same list, \
-                                which is not allowed: {first} of type {first_type} vs \
-                                {other} of type {other_type}"
-                            )));
-                        }
+                    if !other.is_null() && !first.has_same_python_type(other) {
+                        let first_type = first.python_type_name();
+                        let other_type = other.python_type_name();
+                        return Err(PyValueError::new_err(format!(
+                            "Found elements of different (non-null) types in the same list, \
+                            which is not allowed: {first} of type {first_type} vs \
+                            {other} of type {other_type}"
+                        )));
                     }
                 }
             }
